@@ -1,6 +1,7 @@
 import HpxVerif.Model.Bilinear
 import HpxVerif.Lemmas.NumReal
 import HpxVerif.Lemmas.BilinearReal
+import HpxVerif.Lemmas.TopoLift2
 
 set_option autoImplicit false   -- an unknown identifier in a statement is an error, never a new variable
 
@@ -124,5 +125,28 @@ theorem bilinear_panics_iff {α : Type} [Num α] (cfg : Cfg) (d : Nat) (lon lat 
         (Topo.neighbours cfg d h true = none ∨
          ∃ nm, Topo.neighbours cfg d h true = some nm ∧
            ∃ w ∈ slots (quad dx dy), w.isOrdinal = true ∧ getN nm w = none) := bilinear_none_iff cfg d lon lat
+
+open Hpx.BilinearReal in
+/-- **the `unwrap`s of `bilinear_interpolation` never fail** (every numeric instance, every depth `≤ 29`): if
+    `hash_with_dxdy` returns a valid cell number, `bilinear_interpolation` returns its four pairs — `neighbours` does not
+    panic on a valid cell and the ordinal neighbours SE, SW, NE, NW always exist (C04: only a cardinal neighbour can be
+    missing) -/
+theorem bilinear_total {α : Type} [Num α] (cfg : Cfg) (d : Nat) (hd : d ≤ 29) (lon lat : α) (h : Nat) (dx dy : α)
+    (hH : Hash.hashWithDxDy cfg d lon lat = some (h, dx, dy)) (hh : h < 12 * 4 ^ d) :
+    ∃ l, bilinear cfg d lon lat = some l := by
+  cases hb : bilinear cfg d lon lat with
+  | some l => exact ⟨l, rfl⟩
+  | none =>
+    exfalso
+    rcases (bilinear_none_iff cfg d lon lat).1 hb with h0 | ⟨h', dx', dy', hH', hrest⟩
+    · rw [hH] at h0; cases h0
+    · rw [hH] at hH'; cases hH'
+      rcases hrest with hn | ⟨nm, hnm, w, _, hw, hget⟩
+      · rw [TopoLift.neighbours_spec cfg d hd h hh true] at hn; cases hn
+      · obtain ⟨h2, _, _, _, hall⟩ := TopoLift.ordinal_neighbours_exist cfg d hd h hh w hw
+        have hf := (hall true nm hnm).2
+        unfold getN at hget
+        rw [hf] at hget
+        cases hget
 
 end Hpx.C19
